@@ -16,11 +16,17 @@ def windsea_masks(freq, dirs, wspd, wdir, dpt, agefac, celerity_lib):
     approximation (0.1 %) could flip the comparison are flagged ambiguous."""
     f = np.asarray(freq, dtype="float64")
     up = agefac * wspd * np.cos(np.radians(np.asarray(dirs, dtype="float64") - wdir))
-    c = 2 * np.pi * f / I.k_exact(f, dpt)
+    zero = f <= 0
+    fs = np.where(zero, 1.0, f)
+    c = 2 * np.pi * fs / I.k_exact(fs, dpt)
     up2 = np.tile(up, (f.size, 1))
     c2 = np.tile(c[:, None], (1, len(dirs)))
     mask = up2 > c2
     amb = np.abs(up2 - c2) <= 3e-3 * np.abs(c2) + 1e-12
+    # a 0 Hz row has no phase speed (0/0 in the library, sqrt(g d) in the limit): either side is accepted
+    # for the wind-sea decision, but the bins must still end up in exactly one partition
+    mask[zero] = False
+    amb[zero] = True
     return mask, amb
 
 
@@ -33,7 +39,7 @@ def frac_bounds(part, mask, amb):
     return lo, hi
 
 
-def check(kind, spectrum, L, freq, dirs, out, requested, wind=None, celerity_lib=None, hs_rtol=1e-9):
+def check(kind, spectrum, L, freq, dirs, out, requested, wind=None, celerity_lib=None, hs_rtol=1e-9, weak_ok=False):
     """Return (problems, inconclusive_reason). problems: list of (mechanism, data)."""
     S = np.asarray(spectrum)
     out = np.asarray(out)
@@ -66,6 +72,7 @@ def check(kind, spectrum, L, freq, dirs, out, requested, wind=None, celerity_lib
     # ---- classification of basins --------------------------------------------------------------
     bas = basins(L)
     inconcl = None
+    keep = None
     if kind == "ptm3":
         sea_basins, mask = [], None
         swell_src = [(k, np.where(b, Sc, 0)) for k, b in enumerate(bas)]
@@ -93,8 +100,12 @@ def check(kind, spectrum, L, freq, dirs, out, requested, wind=None, celerity_lib
         if amb.any() and kind == "ptm2":
             # per-bin split of swells depends on the ambiguous bins only if they hold energy
             if any((src[amb] != 0).any() for _, src in swell_src):
-                return [], "a wind-sea boundary bin with energy lies within the dispersion approximation"
+                if not weak_ok:
+                    return [], "a wind-sea boundary bin with energy lies within the dispersion approximation"
+                # decided without the ambiguous bins: membership on the other bins, and every bin in exactly one partition
+                keep = ~amb
     zero = np.zeros_like(Sc)
+    same_arr = (lambda a, b: np.array_equal(a, b)) if keep is None else (lambda a, b: np.array_equal(a[keep], b[keep]))
     # ---- expected wind-sea partitions -------------------------------------------------------------
     if kind == "ptm1":
         exp0 = sum((np.where(bas[k], Sc, 0) for k in sea_basins), zero)
@@ -107,7 +118,7 @@ def check(kind, spectrum, L, freq, dirs, out, requested, wind=None, celerity_lib
         exp1 = sum((np.where(mask, src, 0) for _, src in swell_src), zero)
         if not np.array_equal(out[0], exp0):
             probs.append(("ptm2-primary-windsea-membership", {"sea_basins": sea_basins, "nbasins": nb}))
-        if not np.array_equal(out[1], exp1):
+        if not same_arr(out[1], exp1):
             probs.append(("ptm2-secondary-windsea-membership", {}))
         swells_exp = [np.where(mask, 0, src) for _, src in swell_src] + [zero for _ in sea_basins]
         got_swells = out[2:]
@@ -133,7 +144,7 @@ def check(kind, spectrum, L, freq, dirs, out, requested, wind=None, celerity_lib
     for gi, g in enumerate(got_swells):
         if not g.any():
             continue
-        hit = [r for r in remaining if np.array_equal(swells_exp[r], g)]
+        hit = [r for r in remaining if same_arr(swells_exp[r], g)]
         if not hit:
             probs.append(("swell-is-not-a-basin", {"index": gi, "hs": float(got_h[gi])}))
             break
@@ -147,7 +158,7 @@ def check(kind, spectrum, L, freq, dirs, out, requested, wind=None, celerity_lib
                 probs.append(("energy-dropped-although-enough-partitions-requested", {"dropped_hs": dropped_h}))
         else:
             kept_min = got_h.min() if got_h.size else np.inf
-            if dropped_h.size and dropped_h.max() > kept_min + tolh:
+            if keep is None and dropped_h.size and dropped_h.max() > kept_min + tolh:
                 probs.append(("dropped-partition-larger-than-a-kept-one", {"dropped_hs": dropped_h, "kept_hs": got_h}))
     # ---- conservation ------------------------------------------------------------------------------
     enough = requested is None or len(swells_exp) <= len(got_swells)
